@@ -90,6 +90,32 @@ def generate(tier, rng):
             for parts in G.partitions(data, rng, mode, k=4):
                 cases.append(case_for("c01-r%d-%d" % (ri, n), cfgname, cont, cc, th, req, parts, ["random", mode, cfgname]))
                 n += 1
+    # two pipelined requests on one connection: both must be delivered, whatever the fragmentation
+    for pi in range(30 if quick else 600):
+        cfgname = rng.choice(["srv", "srvs", "mid"])
+        cfg = G.REQ_CFGS[cfgname]
+        r1 = G.rand_request(rng, cfg, small=True, framing=rng.choice(["none", "cl", "chunked"]))
+        r2 = G.rand_request(rng, cfg, small=True)
+        if r1.expects_continue() or r2.expects_continue():
+            continue
+        data = r1.render() + r2.render()
+        bodyless_first = r1.chunks is None and not any(h.name.lower() == b"content-length" for h in r1.headers)
+        for mode in ("whole", "bytes", "lines", "struct", "random"):
+            for parts in G.partitions(data, rng, mode, k=3):
+                cfgline = cfg.new_line(cont="s", th=1, cc=1)
+                # known finding C01-KF1: the head of a body-less request and further bytes in ONE read
+                h1 = len(r1.head())
+                off = 0
+                kf = False
+                for p in parts:
+                    if off < h1 <= off + len(p) and off + len(p) > h1 and bodyless_first:
+                        kf = True
+                    off += len(p)
+                cases.append(Case("c01-p%d-%d" % (pi, n), [cfgline] + G.feed_lines(parts),
+                                  {"expect": r1.expected(1, 1) + r2.expected(1, 1), "nparts": len(parts), "kf_c01": kf,
+                                   "tags": ["pipelined", mode, cfgname],
+                                   "key": (cfgname, "s", 1, 1, data, tuple(len(p) for p in parts))}))
+                n += 1
     # large bodies
     for bi in range(3 if quick else 30):
         cfg = G.REQ_CFGS["srv"]
@@ -110,6 +136,12 @@ def oracle(case, out):
     if got != exp:
         return "request delivered differently when split into %d reads:\n expected %s\n got      %s" % (
             case.meta.get("nparts", 0), exp, got)
+    return None
+
+
+def classify(case, fail, il, findings):
+    if any(f["id"] == "C01-KF1" for f in findings) and case.meta.get("kf_c01"):
+        return "C01-KF1"
     return None
 
 
